@@ -9,9 +9,11 @@ import (
 	"flag"
 	"fmt"
 	"os"
+	"runtime"
 	"runtime/debug"
 	"runtime/pprof"
 	"strconv"
+	"time"
 
 	"verif/gv"
 )
@@ -23,6 +25,20 @@ func main() {
 	}
 	// the engine allocates many short-lived immutable values; a lazier collector halves run time
 	debug.SetGCPercent(200)
+	debug.SetMemoryLimit(20 << 30)
+	go func() {
+		// watchdog: a run that needs more memory than this is reported as inconclusive instead of
+		// taking the machine down
+		for {
+			time.Sleep(2 * time.Second)
+			var m runtime.MemStats
+			runtime.ReadMemStats(&m)
+			if m.HeapAlloc > 30<<30 {
+				fmt.Println("INCONCLUSIVE memory budget (30 GiB) exceeded; reduce the bound of the job that was running")
+				os.Exit(3)
+			}
+		}
+	}()
 	if pf := os.Getenv("GV_PROFILE"); pf != "" {
 		f, _ := os.Create(pf)
 		pprof.StartCPUProfile(f)
